@@ -32,7 +32,12 @@ class BuckGophermapHandler(BaseHandler):
                 and stat.S_ISREG(self.statresult[stat.ST_MODE])
                 and self.getselector().endswith(".gophermap")
             ):
+                # A gophermap file is served as the menu it describes, not as
+                # the text file its name suggests.
+                self.entry.settype("1")
+                self.entry.setmimetype("application/gopher-menu")
                 self.entry.populatefromvfs(self.vfs, self.getselector())
+                self.entry.size = None
             else:
                 self.entry.populatefromfs(
                     self.getselector(), self.statresult, vfs=self.vfs
